@@ -213,10 +213,11 @@ impl TraitHandler for PartialOrdEnumHandler {
         if arms_token_stream.is_empty() {
             partial_cmp_token_stream.extend(quote!(Some(::core::cmp::Ordering::Equal)));
         } else {
+            let self_discriminant = discriminant_type.discriminant_match(ast, quote!(self));
+            let other_discriminant = discriminant_type.discriminant_match(ast, quote!(other));
+
             let discriminant_cmp = quote! {
-                unsafe {
-                    ::core::cmp::Ord::cmp(&*<*const _>::from(self).cast::<#discriminant_type>(), &*<*const _>::from(other).cast::<#discriminant_type>())
-                }
+                ::core::cmp::Ord::cmp(&#self_discriminant, &#other_discriminant)
             };
 
             partial_cmp_token_stream.extend(if all_unit {
